@@ -179,12 +179,23 @@ def hyp(case):
   _, s_ref = algos.make_opt(sopt, 0.5)
   hparams = systems._hp(2, 1, None, 0)
   pop = algos.population([2, 3, 0, 4], case.get('seed', 0))
-  cohorts = {'A': [0], 'B': [1], 'AB': [0, 1], 'AC': [0, 2], 'ABD': [0, 1, 3], 'C': [2]}
+  # client id of A coming back with other local data - data that the SECOND cluster explains exactly, while A's own
+  # data is explained exactly by the first cluster: anything remembered per client id picks the wrong cluster
+  import fedjax
+  c0, c1 = [algos.nparams(p) for p in systems.CLUSTER_INITS[:2]]
+  xa = pop[0][1].raw_examples['x']
+  pop[0] = (pop[0][0], fedjax.ClientDataset({'x': xa, 'y': (xa.astype(np.float64) @ c0['w'] + c0['b']).astype(np.float32),
+                                             'domain_id': pop[0][1].raw_examples['domain_id']}), pop[0][2])
+  xb = (xa[::-1] * 1.5 + 0.25).astype(np.float32)
+  pop.append((pop[0][0], fedjax.ClientDataset({'x': xb, 'y': (xb.astype(np.float64) @ c1['w'] + c1['b']).astype(np.float32),
+                                               'domain_id': pop[0][1].raw_examples['domain_id']}), pop[0][2]))
+  cohorts = {'A': [0], 'B': [1], 'AB': [0, 1], 'AC': [0, 2], 'ABD': [0, 1, 3], 'C': [2], 'A2': [4], 'A2B': [4, 1]}
   stats = {'states': 1, 'transitions': 0, 'untouched': 0}
   outs = set()
   p_init = [algos.nparams(p) for p in systems.CLUSTER_INITS[:k]]
 
   def rec(hist, state, ref_p, ref_s):
+    nonlocal depth
     if len(hist) >= depth:
       return
     for name, idxs in cohorts.items():
@@ -231,6 +242,14 @@ def hyp(case):
       outs.add(core.digest([algos.plist(p) for p in new_ref_p] + [sorted(assign.values())]))
       rec(h2, new, new_ref_p, new_ref_s)
   rec([], init, p_init, [s_ref.init(p) for p in p_init])
+  # second root served by the same long-lived algorithm object: cluster parameters in another order (what the object
+  # may have memoised per cluster index / client id while serving the first root is stale here)
+  if 'history' not in case:
+    depth_save = depth
+    depth = min(depth, 2)
+    p2 = list(reversed(p_init))
+    rec([], alg.init([algos.jparams({kk: v.tolist() for kk, v in p.items()}) for p in p2]), p2, [s_ref.init(p) for p in p2])
+    depth = depth_save
   return {'evals': stats['transitions'], 'states': stats['states'], 'transitions': stats['transitions'],
           'traces': stats['transitions'], 'outcomes': sorted(outs), 'nontrivial': True,
           'keys': [['hyp', k, sopt, i] for i in range(stats['transitions'])],
